@@ -83,7 +83,7 @@ DEFAULT_PROFILE: dict[str, Any] = {
     "null_in_enum": True,
     "desc": False,
     "int_enum": True,
-    "optional_const_bool": False,   # C01 finding: optional boolean const does not compile
+    "optional_const_bool": True,    # was a C01 defect (fixed: 5477ace); kept as a switch for the regression replay
     "dup_enum_keys": False,         # C06 finding: member names that coincide crash the generator
     "date_datetime_union": False,   # C02 finding
     "two_array_union": False,       # C02 finding
